@@ -97,7 +97,12 @@ DAfterOK(e) ==
             AdoptInputs([D EXCEPT !.cells[e.s] = Upd(@, Opt(e, "created", e.c),
                             [f |-> e.rec.f, cached |-> e.rec.cached, an |-> e.rec.an])], e)
       [] e.op = "del_cells" ->
-            AdoptInputs([D EXCEPT !.cells[e.s] = Drop(@, {e.c})], e)
+            \* the defined cells OBJECT is gone: references to it go dead even when the
+            \* space derives a cells of the same name from a base right away
+            LET Kd(v) == IF v = CeObj(e.s, <<>>, e.c) THEN DeadCe ELSE v IN
+            AdoptInputs([D EXCEPT !.cells[e.s] = Drop(@, {e.c}),
+                  !.refs  = [s \in DOMAIN @ |-> [n \in DOMAIN @[s] |-> [@[s][n] EXCEPT !.v = Kd(@)]]],
+                  !.grefs = [n \in DOMAIN @ |-> [@[n] EXCEPT !.v = Kd(@)]]], e)
       [] e.op = "rename_cells" ->
             \* the defined cells object lives on under the new name; the copies sub
             \* spaces derived from it are deleted and derived anew (handles to them die)
